@@ -5,6 +5,7 @@ import ast
 import re
 
 from ..absint import new_interp, Interp, State, Activation, HList, HDict, HInst, HGen, NONE, const, is_const, fmt, fmt_seg, fmt_tree, mk_not
+from ..names import N
 from ..common import AnalysisError, Report, read_text
 from ..facts import facts
 from .. import nf
@@ -44,32 +45,32 @@ def rule_line_basics(rep: Report, rid="C04.indent") -> None:
     kw = dict(file=LFILE, line=fi.node.lineno, function=fi.qualname)
     ext = st.ext
     trimmed = ("call", ".lstrip", (text,), ())
-    rep.eq(rid, "the trimmed text is the line without its leading whitespace", fmt(trimmed, I), fmt(ext.get((selft, "_trimmed_line_text"), NONE), I), **kw)
+    rep.eq(rid, "the trimmed text is the line without its leading whitespace", fmt(trimmed, I), fmt(ext.get((selft, N.TRIMMED), NONE), I), **kw)
     ind = ext.get((selft, "indent"))
     want = ("binop", "Sub", ("call", "len", (text,), ()), ("call", "len", (trimmed,), ()))
     rep.ob(rid, "indent = number of leading whitespace code points", ind is not None and lin_eq(ind, want), **kw, expected=fmt(want, I), found=fmt(ind, I) if ind else None)
-    rep.eq(rid, "the raw line text is kept unchanged", fmt(text, I), fmt(ext.get((selft, "_line_text"), NONE), I), **kw)
-    rep.eq(rid, "the line number is kept", fmt(("param", fi.params()[2]), I), fmt(ext.get((selft, "_line_number"), NONE), I), **kw)
+    rep.eq(rid, "the raw line text is kept unchanged", fmt(text, I), fmt(ext.get((selft, N.RAW), NONE), I), **kw)
+    rep.eq(rid, "the line number is kept", fmt(("param", fi.params()[2]), I), fmt(ext.get((selft, N.LINENO), NONE), I), **kw)
     # helpers
     I, fi, tree, rv, st = _run(f"{LQ}.get_rest_trimmed")
     rep.used_function(fi.qualname)
     selft = ("param", fi.params()[0])
     n = ("param", fi.params()[1])
-    want = ("call", ".strip", (("slice", ("attr", selft, "_trimmed_line_text"), n, NONE, NONE),), ())
+    want = ("call", ".strip", (("slice", ("attr", selft, N.TRIMMED), n, NONE, NONE),), ())
     rep.eq(rid, "get_rest_trimmed(n) = trimmed[n:].strip()", fmt(want, I), fmt(rv, I), file=LFILE, line=fi.node.lineno, function=fi.qualname)
     I, fi, tree, rv, st = _run(f"{LQ}.get_line_text")
     rep.used_function(fi.qualname)
     selft = ("param", fi.params()[0])
     n = ("param", fi.params()[1])
     C = ("bool", "or", (("cmp", "Lt", n, const(0)), ("cmp", "Gt", n, ("attr", selft, "indent"))))
-    want = ("cond", C, ("attr", selft, "_trimmed_line_text"), ("slice", ("attr", selft, "_line_text"), n, NONE, NONE))
+    want = ("cond", C, ("attr", selft, N.TRIMMED), ("slice", ("attr", selft, N.RAW), n, NONE, NONE))
     rep.eq(rid, "get_line_text(n) = the trimmed line if n < 0 or n > indent, else raw[n:]", fmt(want, I), fmt(rv, I), file=LFILE, line=fi.node.lineno, function=fi.qualname)
     d = fi.node.args.defaults
     rep.ob(rid, "get_line_text() defaults to the fully trimmed line", len(d) == 1 and isinstance(d[0], ast.UnaryOp) and ast.unparse(d[0]) == "-1",
            file=LFILE, line=fi.node.lineno, function=fi.qualname, expected="indent_to_remove=-1", found=[ast.unparse(x) for x in d])
-    for name, want_fn in (("startswith", lambda s, a: ("call", ".startswith", (("attr", s, "_trimmed_line_text"), a), ())),
-                          ("startswith_title_keyword", lambda s, a: ("call", ".startswith", (("attr", s, "_trimmed_line_text"), ("binop", "Add", a, const(":"))), ())),
-                          ("is_empty", lambda s, a: mk_not(("attr", s, "_trimmed_line_text")))):
+    for name, want_fn in (("startswith", lambda s, a: ("call", ".startswith", (("attr", s, N.TRIMMED), a), ())),
+                          ("startswith_title_keyword", lambda s, a: ("call", ".startswith", (("attr", s, N.TRIMMED), ("binop", "Add", a, const(":"))), ())),
+                          ("is_empty", lambda s, a: mk_not(("attr", s, N.TRIMMED)))):
         I, fi, tree, rv, st = _run(f"{LQ}.{name}")
         rep.used_function(fi.qualname)
         s = ("param", fi.params()[0])
@@ -97,7 +98,7 @@ def rule_tags(rep: Report, rid="C04.tags") -> None:
            expected="<line>.split('@')[1:]", found=fmt(it, I))
     src = it[1][2][0] if ok_it else None
     # the line scanned: trimmed, comment removed at first whitespace+'#'
-    trimmed = ("attr", selft, "_trimmed_line_text")
+    trimmed = ("attr", selft, N.TRIMMED)
     ok_src = False
     if src is not None:
         s0 = src
@@ -151,7 +152,7 @@ def rule_tags(rep: Report, rid="C04.tags") -> None:
                     and regexnf.same(cc[2][0][1], 0, r"\s"):
                 okg = True
         cls = I.obj(n[1]).cls.name if isinstance(I.obj(n[1]), HInst) else None
-        if okg and loc and set(loc) == {"line", "column"} and loc["column"][0] == phi and loc["line"][0] == ("attr", selft, "_line_number") and cls == "ParserException":
+        if okg and loc and set(loc) == {"line", "column"} and loc["column"][0] == phi and loc["line"][0] == ("attr", selft, N.LINENO) and cls == "ParserException":
             good += 1
     rep.ob(rid, "a tag containing whitespace raises ParserException at (this line, this tag's column)", good == 1 and len(raises) == 1, **kw,
            expected="if re.search(whitespace, tag): raise ParserException(..., {'line': line number, 'column': column})", found=f"{len(raises)} raise(s), {good} as specified")
@@ -393,7 +394,7 @@ def rule_split_init(rep: Report, rid="C04.cells") -> None:
     lid = loops[0][1]
     it = I.loops[lid].get("iter")
     g = I.obj(it)
-    trimmed = ("attr", selft, "_trimmed_line_text")
+    trimmed = ("attr", selft, N.TRIMMED)
     ok = isinstance(g, HGen) and g.qualname == q and g.args and g.args[-1] in (("call", ".strip", (trimmed,), ()), trimmed, ("call", ".rstrip", (trimmed,), ()))
     rep.ob(rid, "the splitter scans the left-trimmed row (so splitter columns are relative to the first '|')", ok, **kw2,
            expected="split_table_cells(trimmed.strip())", found=[fmt(a, I) for a in g.args] if isinstance(g, HGen) else fmt(it, I))
@@ -492,8 +493,8 @@ def rule_scanner(rep: Report, rid_line="C04.line", rid_scan="C18.scan") -> None:
     if line is not None and line[0] == "cond" and line[1] == linev and line[3] in (linev, NONE, const("")):
         gl = I.obj(line[2])
         if isinstance(gl, HInst) and gl.cls.name == "GherkinLine":
-            t = st.ext.get((line[2], "_line_text"))
-            nnum = st.ext.get((line[2], "_line_number"))
+            t = st.ext.get((line[2], N.RAW))
+            nnum = st.ext.get((line[2], N.LINENO))
             def strip_cond(x):
                 return x[2] if x is not None and x[0] == "cond" and x[1] == linev else x
             ok = strip_cond(t) == linev and lin_eq(strip_cond(nnum), inc)
